@@ -73,7 +73,7 @@ class StreamEntry:
 
 
 def entries(tier):
-    ml = 104 if tier == "quick" else 156
+    ml = 104 if tier == "quick" else 130
     out = []
     for ty, prefix in (("EventLogRecord", True), ("VaultRecord", True), ("FileRecord", False)):
         for rev in (False, True):
